@@ -264,8 +264,60 @@ def two_rows_same_but_field():
     return ob
 
 
+DYN_RULES = """
+[Ref]
+match: contains("REF")
+category: Refs
+tags: Fixed, {extract("REF:(\\S+)")}, {extract(field.memo, "\\D+(\\d+)")}
+
+[Memo]
+match: field.memo != ""
+tags: {extract(field.memo, "^([A-Z]\\w*)")}, HasMemo
+"""
+DYN_DESCS = ['REF:ab1 x', 'ref:Q', 'REF: none', 'zz']
+DYN_MEMOS = ['inv 4711', 'V12 b', '', 'x']
+
+
+def dynamic_case(mode):
+    """{expression} tags whose expression contains upper-case, case-SENSITIVE pieces (\\S, \\D, [A-Z]): the tag is the value the
+    expression as WRITTEN evaluates to.  Expected values come from Python's re on the fixtures (extract = first group of a
+    case-insensitive search; an empty or missing value drops the tag)."""
+    def ob(di: int, mi: int) -> bool:
+        """
+        pre: 0 <= di <= 3 and 0 <= mi <= 3
+        post: _
+        """
+        import re
+        from engine.ob import pick
+        from tally.merchant_engine import parse_merchants
+        reset_tally_caches()
+        desc, memo = DYN_DESCS[pick(di, 4)], DYN_MEMOS[pick(mi, 4)]
+        eng = parse_merchants(DYN_RULES.replace('\\\\', '\\'), match_mode=mode)
+        res = eng.match({'description': desc, 'amount': 5, 'field': {'memo': memo}, 'source': 'S'})
+
+        def grp(pat, text):
+            m_ = re.search(pat, text, re.IGNORECASE)
+            return m_.group(1).lower() if m_ and m_.group(1) else None
+        exp = set()
+        if 'REF' in desc.upper():
+            exp.add('fixed')
+            for v in (grp(r'REF:(\S+)', desc), grp(r'\D+(\d+)', memo)):
+                if v:
+                    exp.add(v)
+        if memo != '':
+            exp.add('hasmemo')
+            v = grp(r'^([A-Z]\w*)', memo)
+            if v:
+                exp.add(v)
+        return post(res.tags == exp and res.category == ('Refs' if 'REF' in desc.upper() else ''))
+    return ob
+
+
 def obligations(tier, seed):
     obs = []
+    for mode in ['first_match', 'most_specific']:
+        obs.append(Obligation(id=f'dynamic-case-{mode}', factory='dynamic_case', params={'mode': mode}, timeout=120, group='tag union through real conditions',
+                              bounds='dynamic tags with case-sensitive regex pieces; 4 descriptions x 4 memo values (symbolic index)'))
     modes = ['first_match', 'most_specific']
     for mode in modes:
         for fam in range(len(TAG_FAMILIES)):
